@@ -259,7 +259,7 @@ def alt_texts(cls: str) -> list:
         "medium": ["d", "direct", "stream", "f", "file", "t", "temp", "tempfile", "s", "shm", "x", "D", "", "shared"],
         "formats": ["png", "png,jpeg", "png, jpeg", "png jpeg", "a,,b", ",a", "a,", " ", ","],
         "str": ["", "auto", "x y", "5"],
-        "background": ["5", "005", "٣", "-5", "5.0", "", "auto"],
+        "background": ["5", "005", "-5", "5.0", "", "auto"],
     }.get(base, [])
 
 
@@ -281,6 +281,8 @@ def wrong_values(cls: str) -> list:
         "background": {"float": 1.5, "list": [1], "tuple": T(1), "bool": True},
     }.get(base, {})
     out = dict(common)
+    if base == "background":
+        del out["bytes"]          # bytes is one of the declared alternatives
     out.update(spec)
     return sorted(out.items())
 
@@ -323,15 +325,17 @@ def run_impl(sc: dict) -> dict:
     if sc.get("overrides") is not None:
         ov = {"$": "dict", "v": [[k, v] for k, v in sc["overrides"]] + ([["provenance", sc["ov_label"]]] if sc.get("ov_label") is not None else [])}
         ctor["config_overrides"] = ov
+    ctor["id_database"] = str(h.dir / "state" / "c17.db")
     r = h.request("new", kwargs=_enc_kwargs(ctor, h))
     if "tool_error" in r:
         raise ToolFailure(r["tool_error"])
     if "error" in r:
         return {"error": r["error"], "path": path}
-    c = h.request("config")
+    c = h.request("config", _raw=True)
     if "ok" not in c:
         raise ToolFailure(f"config(): {c}")
-    return {"config": _undict(c["ok"]), "path": path}
+    top = _undict(c["ok"])
+    return {"config": {"values": _undict(top["values"]), "provenance": _undict(top["provenance"])}, "path": path}
 
 
 def _enc_kwargs(ctor: dict, h) -> dict:
@@ -339,9 +343,9 @@ def _enc_kwargs(ctor: dict, h) -> dict:
     return {"$": "dict", "v": [[k, v] for k, v in ctor.items()]}
 
 
-def _undict(j):
-    """request() decodes tuples into Python tuples and dict tags into dicts; bring back to enc form"""
-    return j
+def _undict(j) -> dict:
+    """{"$":"dict","v":[[k, v],..]} -> {k: v} (values stay in transport form)"""
+    return {k: v for k, v in j["v"]}
 
 
 def impl_summary(res: dict, names: list) -> dict:
@@ -351,7 +355,7 @@ def impl_summary(res: dict, names: list) -> dict:
         return {"error": e["type"], "msg": e["msg"]}
     vals = res["config"]["values"]
     prov = res["config"]["provenance"]
-    return {"values": {n: tok(enc(vals[n])) for n in names}, "prov": {n: prov[n] for n in names}}
+    return {"values": {n: tok(vals[n]) for n in names}, "prov": {n: prov[n] for n in names}}
 
 
 def run_model(ctx: Ctx, sc: dict, path: str | None) -> dict:
@@ -472,7 +476,7 @@ def _check_case(ctx: Ctx, c: dict):
                 ctx.violation("the winning layer's value is rejected on its own but accepted in combination", c,
                               {"option": name, "winner": w, "error": alone["error"]}, key="precedence:alone-rejected")
                 continue
-            va = tok(enc(alone["config"]["values"][name]))
+            va = tok(alone["config"]["values"][name])
             if impl["values"][name] != va:
                 ctx.violation("effective value is not the one given by the highest-priority layer that sets the option", c,
                               {"option": name, "winner": w, "effective": impl["values"][name], "winner_alone": va, "set_by": sorted(by)},
@@ -503,14 +507,14 @@ def _check_case(ctx: Ctx, c: dict):
             ctx.count("text:native-rejected")
             return
         eff = native["config"]["values"][name]
-        text = text_of(enc(eff))
-        spec_text = d.ask(f"c17 text {tok(enc(eff))}")
+        text = text_of(eff)
+        spec_text = d.ask(f"c17 text {tok(eff)}")
         if not isinstance(eff, float) and spec_text != ("_" if text is None else f"S{hexs(text)};"):
             raise ToolFailure(f"harness text_of and Spec.Config.textOf disagree on {eff!r}: {text!r} vs {spec_text}")
         if text is None:
             ctx.count("text:no-textual-form")
             return
-        efft = tok(enc(eff))
+        efft = tok(eff)
         forms = [("env", single("env", name, text)), ("kwargs", single("kwargs", name, text)),
                  ("overrides", single("overrides", name, text))]
         if "\\" not in text:
@@ -527,14 +531,44 @@ def _check_case(ctx: Ctx, c: dict):
                 ctx.violation(f"a value accepted for the option is rejected in its textual form from the {lname} layer",
                               dict(c, layer=lname), {"text": text, "class": cls, "error": r["error"]["msg"][:200]},
                               key=f"same-text:{cls}:{lname.split('-')[0]}")
-            elif tok(enc(r["config"]["values"][name])) != efft:
+            elif tok(r["config"]["values"][name]) != efft:
                 ctx.violation(f"the textual form means a different value in the {lname} layer", dict(c, layer=lname),
-                              {"text": text, "class": cls, "native": efft, "from_text": tok(enc(r["config"]["values"][name]))},
+                              {"text": text, "class": cls, "native": efft, "from_text": tok(r["config"]["values"][name])},
                               key=f"same-text-value:{cls}:{lname.split('-')[0]}")
     elif k == "alt":
         name, text, layer = c["opt"], c["text"], c["layer"]
         sc = single(layer, name, text)
         compare_K(ctx, c, sc, run_impl(sc), "string form")
+    elif k == "envtext":
+        # a text the environment layer accepts must mean the same in every other layer, incl. as a bare TOML literal
+        name, text = c["opt"], c["text"]
+        cls = OPTS.get(name, "other")
+        base = cls.split("|")[0]
+        r0 = run_impl(single("env", name, text))
+        if "error" in r0:
+            ctx.count("envtext:rejected-by-env")
+            return
+        v0 = tok(r0["config"]["values"][name])
+        forms = [("kwargs", single("kwargs", name, text)), ("overrides", single("overrides", name, text))]
+        if "\\" not in text:
+            forms.append(("file-string", single("file", name, text)))
+        if base in ("int", "float", "bool"):
+            try:
+                lit = toml.loads(f"x = {text}")["x"]
+            except Exception:
+                lit = None
+            if isinstance(lit, (bool, int, float)):
+                forms.append(("file-literal", dict(single("file", name, None), file=[[name, lit]], file_text=f"{name} = {text}\n")))
+        for lname, sc in forms:
+            r = run_impl(sc)
+            compare_K(ctx, dict(c, layer=lname), sc, r, "env text elsewhere")
+            ctx.count(f"envtext:{base}:{lname}")
+            if "error" in r:
+                ctx.violation(f"a text the environment layer accepts is rejected from the {lname} layer", dict(c, layer=lname),
+                              {"text": text, "class": cls, "error": r["error"]["msg"][:200]}, key=f"env-text:{base}:{lname}")
+            elif tok(r["config"]["values"][name]) != v0:
+                ctx.violation(f"a text the environment layer accepts means a different value in the {lname} layer", dict(c, layer=lname),
+                              {"text": text, "class": cls, "env": v0, "here": tok(r["config"]["values"][name])}, key=f"env-text-value:{base}:{lname}")
     elif k == "wrong":
         name, v, layer, label = c["opt"], c["value"], c["layer"], c["label"]
         cls = OPTS.get(name, "other")
@@ -544,7 +578,7 @@ def _check_case(ctx: Ctx, c: dict):
         ctx.count(f"wrong:{cls.split('|')[0]}:{label}:{'rejected' if 'error' in r else 'ACCEPTED'}")
         if "error" not in r:
             ctx.violation("a value of a type the option does not admit is accepted", c,
-                          {"class": cls, "value_class": label, "effective": tok(enc(r["config"]["values"][name]))},
+                          {"class": cls, "value_class": label, "effective": tok(r["config"]["values"][name])},
                           key=f"wrong-type-accepted:{cls.split('|')[0]}:{label}")
         elif not names_option(r["error"]["msg"], name):
             ctx.violation("the error for a wrong-type value does not name the option", c,
@@ -558,7 +592,7 @@ def _check_case(ctx: Ctx, c: dict):
             ctx.count("toml:ctor-error")
             return
         h = host()
-        before = {n: tok(enc(res["config"]["values"][n])) for n in res["config"]["values"]}
+        before = {n: tok(res["config"]["values"][n]) for n in res["config"]["values"]}
         for mode in c.get("modes", ["plain", "provenance", "skip_default"]):
             kw = {"plain": {}, "provenance": {"with_provenance": True}, "skip_default": {"skip_default": True},
                   "cli": {}}[mode]
@@ -586,18 +620,18 @@ def _check_case(ctx: Ctx, c: dict):
                     parsed = None
                     ctx.violation("the dumped configuration is not valid TOML", c, {"error": str(e), "dump": text[:400]}, key="toml-roundtrip:invalid-toml")
                 if parsed is not None:
-                    md = d.ask("c17 dump " + entries_tok([[n, enc(res["config"]["values"][n])] for n in res["config"]["values"]]))
+                    md = d.ask("c17 dump " + entries_tok([[n, res["config"]["values"][n]] for n in res["config"]["values"]]))
                     want = entries_tok([[n, parsed[n]] for n in parsed])
                     ctx.eq("to_toml_string (typed channel)", c, want, "|".join(f"{kv.split('=')[0]}={canon_tok(kv.split('=', 1)[1])}" for kv in md.split("|")))
             # load into a fresh configuration object
-            r = h.run("cfg = tupimage.TupimageConfig()\ncfg.override_from_toml_string(text)\n"
+            r = h.run(_raw=True, source="cfg = tupimage.TupimageConfig()\ncfg.override_from_toml_string(text)\n"
                       "result = {n: getattr(cfg, n) for n in type(cfg).__annotations__}\n", text=text)
             ctx.count("toml:" + mode)
             if "ok" not in r:
                 ctx.violation("the dumped configuration cannot be loaded back", dict(c, mode=mode),
                               {"error": r.get("error"), "dump": text[:600]}, key="toml-roundtrip:load-raises")
                 continue
-            after = {n: tok(enc(v)) for n, v in r["ok"].items()}
+            after = {n: tok(v) for n, v in _undict(r["ok"]).items()}
             if mode == "skip_default":
                 # options left out are the ones reporting 'default': they must equal a fresh default
                 pass
@@ -613,7 +647,7 @@ def _check_case(ctx: Ctx, c: dict):
                     ctx.violation("the dumped configuration is rejected as a config file", c, {"error": r2["error"], "dump": text[:600]},
                                   key="toml-roundtrip:file-rejected")
                 else:
-                    after2 = {n: tok(enc(v)) for n, v in r2["config"]["values"].items()}
+                    after2 = {n: tok(v) for n, v in r2["config"]["values"].items()}
                     diff = {n: [before[n], after2.get(n)] for n in before if before[n] != after2.get(n)}
                     if diff:
                         ctx.violation("dump -> config file -> constructor does not reproduce every option", c, {"differs": diff},
@@ -702,6 +736,9 @@ def cases(ctx: Ctx):
                 if layer == "file" and "\\" in t:
                     continue
                 yield {"k": "alt", "opt": name, "text": t, "layer": layer}
+    for name in names:
+        for t in alt_texts(OPTS[name]):
+            yield {"k": "envtext", "opt": name, "text": t}
     # 4. wrong types
     for name in names:
         for label, v in wrong_values(OPTS[name]):
@@ -785,7 +822,7 @@ def run(ctx: Ctx):
     ctx.assumptions += [
         "generated strings contain no backslashes (toml 0.10.2 mis-escapes a backslash followed by x — third-party)",
         "numeric strings stay inside the modelled grammar of int()/float(): ASCII sign/digits/underscores/point/exponent and surrounding "
-        "ASCII whitespace; no inf/nan, no non-ASCII digits (one non-ASCII digit string is sent to `background` on purpose: K only)",
+        "ASCII whitespace; no inf/nan, no non-ASCII digits",
         "same-text is judged for values that have a textual form: floats by repr(), lists that are non-empty with non-empty items free of "
         "',' and ' ' (the empty list has no textual form — recorded as an observation, not judged)",
         "the bare TOML literal is presented only for int/float/bool options",
